@@ -60,6 +60,9 @@ func runConfig(spec *PropertySpec, lc LoadConfig, rep *Report) (npk int, err err
 	for _, e := range a.Errs {
 		rep.Anchor("A0", e, false)
 	}
+	for _, e := range a.Soft {
+		rep.Note("anchor not resolved (rules that need it fail closed on their floors): %s", e)
+	}
 	if len(a.Errs) == 0 {
 		rep.Anchor("A0", "anchor table (Conn fields by role, teardown, connect routine, members, handler tables)", true)
 		spec.Run(&Ctx{Prog: prog, A: a, R: rep})
